@@ -627,6 +627,9 @@ pub fn explore_c14(unit_seed: u64, index: u64, _tier: Tier) -> UnitReport {
         };
         rep.count(k);
     }
+    if run.probes.long_trace_sampled > 0 {
+        rep.count(&format!("probe:long-trace-input:{kind}"));
+    }
     match &run.skipped {
         Some(why) => rep.count(&format!("skipped:{why}")),
         None => {
